@@ -275,6 +275,9 @@ pub enum MultiProofVerificationError {
     PathsOutOfOrder,
     /// Extra siblings were provided.
     TooManySiblings,
+    /// The multi-proof is structurally inconsistent: a claimed depth does not fit the terminal's
+    /// path, a terminal is a prefix of another one, or there are too few siblings.
+    Malformed,
 }
 
 #[derive(Debug, Clone)]
@@ -479,7 +482,17 @@ fn verify_range<H: NodeHasher>(
         // at a terminal node, 'siblings' will contain all unique
         // nodes, hash them up, and return that
         let terminal_path = &paths[0];
+        // the claimed depth must lie at or below the depth reached and within the terminal's
+        // path, and the siblings for the remaining layers must be present.
+        if terminal_path.depth < start_depth
+            || terminal_path.depth > terminal_path.terminal.path().len()
+        {
+            return Err(MultiProofVerificationError::Malformed);
+        }
         let unique_len = terminal_path.depth - start_depth;
+        if siblings.len() < unique_len {
+            return Err(MultiProofVerificationError::Malformed);
+        }
 
         let node = hash_path::<H>(
             terminal_path.terminal.node::<H>(),
@@ -502,13 +515,27 @@ fn verify_range<H: NodeHasher>(
     let start_path = &paths[0];
     let end_path = &paths[paths.len() - 1];
 
+    if start_path.terminal.path().len() < start_depth || end_path.terminal.path().len() < start_depth
+    {
+        return Err(MultiProofVerificationError::Malformed);
+    }
+
     let common_bits = shared_bits(
         &start_path.terminal.path()[start_depth..],
         &end_path.terminal.path()[start_depth..],
     );
 
     let common_len = start_depth + common_bits;
-    // TODO: if `common_len` == 256 the multi-proof is malformed. error
+
+    // every path of the range must continue beyond the common part (in particular no terminal
+    // may be a prefix of another one), and the common siblings must be present.
+    if paths
+        .iter()
+        .any(|path| path.terminal.path().len() <= common_len)
+        || siblings.len() < common_bits
+    {
+        return Err(MultiProofVerificationError::Malformed);
+    }
 
     let uncommon_start_len = common_len + 1;
 
@@ -526,6 +553,11 @@ fn verify_range<H: NodeHasher>(
     // furthermore, the left and right slices must be non-empty because start/end exist and the
     // bisection is based off of them.
     let bisect_idx = search_result.unwrap_err();
+
+    // both halves are non-empty when the paths are ordered; a range that is not is malformed.
+    if bisect_idx == 0 || bisect_idx == paths.len() {
+        return Err(MultiProofVerificationError::Malformed);
+    }
 
     if common_bits > 0 {
         verified_bisections.push(VerifiedBisection {
